@@ -44,7 +44,7 @@ enum C12Unary { U_SQRT, U_CEIL, U_FLOOR, U_RELU, U_RELU6, U_HARDTANH, U_LEAKY_RE
 enum C12Binary { B_ADD, B_SUB, B_MUL, B_DIV, B_COUNT };
 // parameters used by the harness (dyadic, so every product with dyadic data is exact)
 template <typename T> struct C12Params {
-    static constexpr T hardtanh_min = T(-1.5), hardtanh_max = T(2.25), leaky_slope = T(0.125), prelu_alpha = T(0.25), softshrink_lambda = T(0.5), hardshrink_lambda = T(0.75);
+    static constexpr T hardtanh_min = T(-1.5), hardtanh_max = T(2.25), leaky_slope = T(0.125), prelu_alpha = T(0.375) /* not the default 0.25 */, softshrink_lambda = T(1.25) /* not the default 0.5 */, hardshrink_lambda = T(0.75);
 };
 template <typename T> inline T c12_unary(int op, T x) {
     using P = C12Params<T>;
